@@ -396,7 +396,7 @@ Theorem c01_empty_topic_example :
 Proof. exact empty_topic_witness. Qed.
 
 (** ---- whole runs (Router/TraceRun*.v): exactly once, in order, gap-free within retention, nothing
-    from before the SUBSCRIBE, complete at quiescence — for EVERY run from [init].
+    from before the SUBSCRIBE, complete at quiescence, original content — for EVERY run from [init].
     Ghost.  [run_d st0 ops = Ok (st, tr)] is the model's [run] with one more result, the delivery
     trace [tr]; it is computed by instrumented copies of the model's own functions and erases to
     [run] ([c01_run_ghost_erases]; every run has its trace: [c01_run_has_trace]).  An event
@@ -412,20 +412,24 @@ Proof. exact empty_topic_witness. Qed.
                   cursor and are not events);
       [KJump from to] a sweep started with a STALE cursor ([stale], the log rolled past it): it
                   continues at the log's base [to], the entries [from, to) were evicted
-                  unforwarded — the "within retention" proviso ([c01_run_jump_event]).
+                  unforwarded — the "within retention" proviso ([c01_run_jump_event]);
+      [KRes]      a Connect RESUMED a saved session on a new link: one marker per restored
+                  non-shared request, under the NEW key ([c01_run_res_event]).  Nothing is claimed
+                  about where such a request continues (C08: it re-delivers from the first
+                  unacknowledged forward); nothing is claimed across connection epochs.
     [ktrace K tr] = the events of key K = (k, f, i) in order; [nxt]: where the request continues
     after an event (forward off -> off + 1, jump -> to, subscribe -> e); [kchain]: every event
-    starts where the previous one continues ([ok_next]); [covered x l]: offset [x] is forwarded
-    in [l], or inside a jump of [l], or below a subscribe marker of [l].
+    starts where the previous one continues ([ok_next]; anything may follow a [KRes], a [KRes]
+    follows nothing but a [KRes]); [covered x l]: offset [x] is forwarded in [l], or inside a
+    jump of [l], or below a subscribe marker of [l].
     Hypotheses of every theorem: valid configuration, max_outgoing_packet_count < 2^62, well-typed
     ops (SUBSCRIBE QoS <= 2), fewer than 2^62 entries per filter log in the LAST state; for
     completeness also max_outgoing_packet_count >= 1 and a quiescent final state.  NO hypothesis
-    on ops or oracles.  A session resumed on a new connection gets a new link, hence new keys:
-    nothing is claimed across connection epochs (C08 says what a resumption re-delivers).
-    Not covered here: that the filter log [i] of the key is the log of filter [f] (the request
-    shape [dl_findex f = i] is not an invariant yet), and the content of a forward (payload and
-    topic are the stored entry's: [c01_sweep_exact], per sweep). *)
-From Rumqtt Require Import Router.TraceRun Router.TraceRunThm Router.TraceRunExamples.
+    on ops or oracles.
+    Not covered here: that the filter log [i] of a key is the log of filter [f] (the request
+    shape [dl_findex f = i] is not an invariant yet); that an accepted message reaches the log of
+    every matching filter (cache completeness of [dl_matches]; checked by the monitor). *)
+From Rumqtt Require Import Router.TraceRun Router.TraceRunThm Router.TraceRunContent Router.TraceRunExamples.
 From Rumqtt Require Import Router.Model Router.RunDefs.
 
 Theorem c01_run_ghost_erases : forall (ops : list (list oracle * rop)) (st : rstate),
@@ -440,12 +444,18 @@ Theorem c01_run_has_trace : forall (ops : list (list oracle * rop)) (st st' : rs
   run st ops = Ok st' -> exists tr, run_d st ops = Ok (st', tr).
 Proof. exact run_has_trace. Qed.
 
-(** the trace of every key is a chain *)
+(** the trace of every key is a chain, and starts with a subscribe or a resume marker *)
 Theorem c01_run_chain : forall (cfg : config) (st0 : rstate) (ops : list (list oracle * rop)) (st : rstate) (tr : list dev),
   cfg_ok cfg -> cf_max_outgoing cfg < B62 -> init cfg = Ok st0 -> ops_wf ops ->
   run_d st0 ops = Ok (st, tr) -> Bounded st ->
   forall K : dkey, kchain (ktrace K tr).
 Proof. exact c01_run_chain_thm. Qed.
+
+Theorem c01_run_key_head : forall (cfg : config) (st0 : rstate) (ops : list (list oracle * rop)) (st : rstate) (tr : list dev),
+  cfg_ok cfg -> cf_max_outgoing cfg < B62 -> init cfg = Ok st0 -> ops_wf ops ->
+  run_d st0 ops = Ok (st, tr) -> Bounded st ->
+  forall (K : dkey) (a : kev) (l : list kev), ktrace K tr = a :: l -> a = KRes \/ exists e : N, a = KSub e.
+Proof. exact c01_run_key_head_thm. Qed.
 
 (** (a) no duplicate, acceptance order: the offsets forwarded for a key increase strictly *)
 Theorem c01_run_no_dup_in_order : forall (cfg : config) (st0 : rstate) (ops : list (list oracle * rop)) (st : rstate) (tr : list dev),
@@ -476,13 +486,15 @@ Theorem c01_run_starts_after_subscribe : forall (cfg : config) (st0 : rstate) (o
     ktrace K tr = l1 ++ KSub e :: l2 ->
     (forall (off : N) (p : publish), In (KFwd off p) l2 -> e <= off) /\
     (forall (b : kev) (l3 : list kev), l2 = b :: l3 ->
-       match b with KFwd off _ => off = e | KJump from to => from = e /\ e <= to | KSub e' => e <= e' end).
+       match b with KFwd off _ => off = e | KJump from to => from = e /\ e <= to | KSub e' => e <= e' | KRes => False end).
 Proof. exact c01_run_starts_after_subscribe_thm. Qed.
 
 (** (d) complete at quiescence: every live connection's every subscription has its one request
-    parked at the end of its log ([c01_complete_quiescent]); if it is not shared, every offset
-    from a subscribe marker of its key up to the end of the log is accounted for after the
-    marker: forwarded (once, by (a)), jumped over (evicted), or below a later re-subscription *)
+    parked at the end of its log ([c01_complete_quiescent]); if it is not shared, its key has a
+    history that starts with the SUBSCRIBE marker or (resumed session) the resume marker, and
+    every offset from a subscribe marker of the key up to the end of the log is accounted for
+    after the marker: forwarded (once, by (a)), jumped over (evicted), or below a later
+    re-subscription *)
 Theorem c01_run_complete : forall (cfg : config) (st0 : rstate) (ops : list (list oracle * rop)) (st : rstate) (tr : list dev),
   cfg_ok cfg -> cf_max_outgoing cfg < B62 -> init cfg = Ok st0 -> ops_wf ops ->
   run_d st0 ops = Ok (st, tr) -> Bounded st ->
@@ -494,6 +506,7 @@ Theorem c01_run_complete : forall (cfg : config) (st0 : rstate) (ops : list (lis
     nget (r_datalog st) i = Some d /\ In (id, rq) (d_waiters d) /\ dr_filter rq = f /\ dr_idx rq = i /\
     (dr_group rq = None ->
      snd (dr_cursor rq) = end_of (d_log d) /\
+     (exists (a : kev) (l : list kev), ktrace (o_link o, f, i) tr = a :: l /\ (a = KRes \/ exists e : N, a = KSub e)) /\
      forall (l1 : list kev) (e : N) (l2 : list kev), ktrace (o_link o, f, i) tr = l1 ++ KSub e :: l2 ->
        forall x : N, e <= x < end_of (d_log d) -> covered x l2).
 Proof. exact c01_run_complete_thm. Qed.
@@ -502,6 +515,18 @@ Theorem c01_run_covered_no_resubscribe : forall (x : N) (l : list kev),
   no_sub l -> covered x l ->
   (exists p : publish, In (KFwd x p) l) \/ (exists from to : N, In (KJump from to) l /\ from <= x < to).
 Proof. exact covered_no_sub. Qed.
+
+(** (e) original content: every log of the final state has ONE history [all] consistent with
+    the log ([WF], C13) such that every forward ever made from that log carries the entry
+    appended at its offset: same payload, retain, dup; same topic, or an empty topic when a
+    broker topic alias stands for it; QoS = the granted one ([prel]) *)
+Theorem c01_run_content : forall (cfg : config) (st0 : rstate) (ops : list (list oracle * rop)) (st : rstate) (tr : list dev),
+  cf_max_outgoing cfg < B62 -> init cfg = Ok st0 -> run_d st0 ops = Ok (st, tr) -> Bounded st ->
+  forall (i : N) (d : data), nget (r_datalog st) i = Some d ->
+  exists all : list pubdata, WF pubdata_size (d_log d) all /\
+    forall (id k : N) (f : str) (off : N) (p : publish), In (id, (k, f, i), KFwd off p) tr ->
+      exists (e : pubdata) (q : N), nth_error all (N.to_nat off) = Some e /\ prel q (fst e) p.
+Proof. exact run_content. Qed.
 
 Theorem c01_run_event_owner : forall (cfg : config) (st0 : rstate) (ops : list (list oracle * rop)) (st : rstate) (tr : list dev),
   cfg_ok cfg -> cf_max_outgoing cfg < B62 -> init cfg = Ok st0 -> ops_wf ops ->
@@ -517,7 +542,7 @@ Theorem c01_run_event_in_log : forall (cfg : config) (st0 : rstate) (ops : list 
     In (id, (k, f, i), a) tr -> exists d : data, nget (r_datalog st) i = Some d /\ nxt a <= end_of (d_log d).
 Proof. exact c01_run_event_in_log_thm. Qed.
 
-(** what the events of one sweep / one SUBSCRIBE are *)
+(** what the events of one sweep / one SUBSCRIBE / one Connect are *)
 Theorem c01_run_fwd_event : forall (st : rstate) (id : N) (rq : drequest) (st' : rstate) (cs : consume_status)
     (id' : N) (K : dkey) (off : N) (p : publish),
   In (id', K, KFwd off p) (fdd_ghost st id rq st' cs) ->
@@ -546,11 +571,21 @@ Theorem c01_run_sub_event : forall (st : rstate) (f : str) (st1 : rstate) (idx :
     nget (r_datalog st1) idx = Some d /\ a = KSub (end_of (d_log d)).
 Proof. exact pf_ghost_sub. Qed.
 
-(** the hypotheses are met by a concrete run (Router/TraceRunExamples.v): subscribers a (QoS 1,
+Theorem c01_run_res_event : forall (st' : rstate) (client : str) (link id' : N) (K : dkey) (a : kev),
+  In (id', K, a) (conn_ghost st' client link) ->
+  a = KRes /\ al_get str_eqb client (r_cmap st') = Some id' /\
+  exists (o : outgoing) (t : tracker) (rq : drequest),
+    slab_get (r_obufs st') id' = Some o /\ o_link o = link /\
+    slab_get (r_trackers st') id' = Some t /\ In rq (tr_reqs t) /\ dr_group rq = None /\
+    K = (link, dr_filter rq, dr_idx rq).
+Proof. exact conn_ghost_res. Qed.
+
+(** the hypotheses are met by concrete runs (Router/TraceRunExamples.v).  Subscribers a (QoS 1,
     link 0) and b (QoS 0, link 1) on "t"; 103 publishes — a gets 100 and is paused by its full
     window —; 12 large publishes roll the two-segment log past both cursors (base 109); then
     both are swept from stale cursors (jumps 100->109 and 103->109), all is acknowledged and
-    drained: quiescent.  [kshort]: (0, off, 0) forward, (1, from, to) jump, (2, e, 0) subscribe. *)
+    drained: quiescent.  [kshort]: (0, off, 0) forward, (1, from, to) jump, (2, e, 0) subscribe,
+    (3, 0, 0) resume marker. *)
 Theorem c01_run_example_paused :
   let st := tx_st tx_ops_mid in let tr := tx_tr tx_ops_mid in
   tx_run tx_ops_mid = Ok (st, tr) /\
@@ -581,3 +616,16 @@ Theorem c01_run_example_quiescent :
       map (fun w : N * drequest => (fst w, dr_cursor (snd w), dr_group (snd w))) (d_waiters d)
         = [(1, (3, 115), None); (0, (3, 115), None)].
 Proof. exact trace_run_quiescent. Qed.
+
+(** a persistent session resumed: the old key (link 0) got Sub 0, Fwd 0, 1, 2 (never
+    acknowledged); the new connection of the same client has key 0 again but link 2: its key
+    starts with the resume marker and gets 0, 1, 2 again — re-delivery across epochs *)
+Theorem c01_run_example_resume :
+  let st := tx_st tx_ops_resume in let tr := tx_tr tx_ops_resume in
+  tx_run tx_ops_resume = Ok (st, tr) /\
+  (exists st0, cfg_ok tx_cfg /\ cf_max_outgoing tx_cfg < B62 /\ init tx_cfg = Ok st0 /\ ops_wf tx_ops_resume /\
+               run_d st0 tx_ops_resume = Ok (st, tr) /\ Bounded st) /\
+  map kshort (ktrace (0, [116], 0) tr) = (2, 0, 0) :: fwds 0 3 /\
+  map kshort (ktrace (2, [116], 0) tr) = (3, 0, 0) :: fwds 0 3 /\
+  exists o : outgoing, slab_get (r_obufs st) 0 = Some o /\ o_link o = 2 /\ lenN (o_inflight o) = 3.
+Proof. exact trace_run_resume. Qed.
